@@ -36,19 +36,19 @@ TEXT = {
             'Snapshot = Engine.state.get_value() read inside emit(); flagged set computed from the world spec; liveness clause for emit_step > 1 as stated in DESIGN.',
             'bounded exhaustive execution enumeration with per-emit snapshot oracle, ideal-timeline conformance and emit_step differential'),
     'C14': ('exploration', '3/C14',
-            'Bounded-exhaustive input enumeration: every value tree up to the stated depth/width over a boundary-value alphabet (incl. nan/inf/huge/tiny magnitudes x compound units) is pushed through serialize_value/deserialize_value and RAMEmitter and compared with an independent normal form; every reject must raise TypeError. Rejects include callables that are neither functions nor processes.',
+            'Bounded-exhaustive input enumeration: every value tree up to the stated depth/width over a boundary-value alphabet (incl. nan/inf/huge/tiny magnitudes x compound units) is pushed through serialize_value/deserialize_value and RAMEmitter and compared with an independent normal form; every reject must raise TypeError. Rejects include callables that are neither functions nor processes. Also: zero-dimensional arrays, tuple subclasses rejected, one fallback hook / emitter reused across in-place changes, deserialisation leaving its input alone.',
             'Values outside the alphabet (arbitrary floats, serializer-shaped strings) are not covered; set order insignificant.',
             'bounded exhaustive input enumeration against a reference normal form'),
     'C17': ('exploration', '3/C17',
-            'Exhaustive: all trees of depth <= 3 over two keys x all start nodes x all paths of length <= 3/4 over {a, b, ..} x all node pairs; path laws are checked by node identity on real Store objects and against ten-line reference functions for the dictionary helpers. Also the store API ([]), trees with shared sub-dict objects, falsy writes, and the laws after a subtree was moved.',
+            'Exhaustive: all trees of depth <= 3 over two keys x all start nodes x all paths of length <= 3/4 over {a, b, ..} x all node pairs; path laws are checked by node identity on real Store objects and against ten-line reference functions for the dictionary helpers. Also the store API ([]), trees with shared sub-dict objects, falsy writes, and the laws after a subtree was moved. Also: ports wired to paths that establish a new key and climb out of it again, paths_to_dict on every permutation of the leaf list, assoc_in with dictionary values.',
             'Walks above the root and walks through a leaf are outside the laws.',
             'exhaustive small-scope enumeration of trees and paths against reference path functions'),
     'C18': ('exploration', '3/C18',
-            'All 24 variable trees x 1-3 times x cell assignments over falsy/truthy/quantity values (all, or all with <= 2 deviating cells) x all query sets are emitted through RAMEmitter and read back through every accessor; columns, cells and query results are compared with the rows that were emitted. Also raw data with permuted time-key insertion order, units with exponents, lists mixing numbers and quantities.',
+            'All 24 variable trees x 1-3 times x cell assignments over falsy/truthy/quantity values (all, or all with <= 2 deviating cells) x all query sets are emitted through RAMEmitter and read back through every accessor; columns, cells and query results are compared with the rows that were emitted. Also raw data with permuted time-key insertion order, units with exponents, lists mixing numbers and quantities. Also: rows whose list / dictionary values are changed in place after the emit, empty branches, queried path timeseries.',
             'Every variable exists at every time; quantity columns keyed (name, unit string).',
             'bounded exhaustive input enumeration with a round-trip oracle'),
     'C08': ('exploration', '3/C08',
-            'Every registered updater (and a user function, and per-update _updater overrides) over small value/update domains, node depths, sibling counts and batches of 1-3 updates is applied through Store.apply_update and through Engine.update with scripted probes, and compared with reference updaters; also checks the frame (other variables untouched), that the update handed in is not modified, and declared units. Engine route also through leaf ports (bare, possibly falsy, update values) and list-valued updates through two ports.',
+            'Every registered updater (and a user function, and per-update _updater overrides) over small value/update domains, node depths, sibling counts and batches of 1-3 updates is applied through Store.apply_update and through Engine.update with scripted probes, and compared with reference updaters; also checks the frame (other variables untouched), that the update handed in is not modified, and declared units. Engine route also through leaf ports (bare, possibly falsy, update values) and list-valued updates through two ports. Also: the _reduce update form (with a named updater), nested None under merge, set variables whose batch ends with a named updater.',
             'Non-commuting batches may be applied in any order; unit magnitudes to 1e-12; dict-valued leaf updates through two ports of one process excluded.',
             'bounded exhaustive input enumeration against reference updaters, two routes (store / engine)'),
     'C11': ('exploration', '3/C11',
@@ -68,15 +68,15 @@ TEXT = {
             'Sharers declare equal defaults; differing defaults are merged silently by design.',
             'bounded exhaustive enumeration of composites x initial-state subsets against a reference resolver'),
     'C07': ('model_checking', '3/C07',
-            'Explorer B (BFS over structural histories with canonical-state merging, each history replayed on a fresh real Engine) plus the C06 grammar with undeclared extras: at EVERY calculate_timestep/update_condition/next_update call of the observer its states argument is compared with an independent projection of the whole-hierarchy snapshot taken in the same callback. Also controllers inside dividing / dying / migrating compartments that watch both containers (agents family), and watchers with an empty glob ("*": {}) while children are added / generated / deleted.',
+            'Explorer B (BFS over structural histories with canonical-state merging, each history replayed on a fresh real Engine) plus the C06 grammar with undeclared extras: at EVERY calculate_timestep/update_condition/next_update call of the observer its states argument is compared with an independent projection of the whole-hierarchy snapshot taken in the same callback. Also controllers inside dividing / dying / migrating compartments that watch both containers (agents family), and watchers with an empty glob ("*": {}) while children are added / generated / deleted. Also: observers that wait across non-forcing calls, "**" ports over an emptied glob store, glob ports on the observer"s own compartment.',
             'Snapshot read inside the observer callback; canonical form drops values; observer process (ts 1, 2) or dependent step.',
             'explicit-state BFS over operation histories on the real engine with a per-callback projection invariant'),
     'C09': ('model_checking', '3/C09',
-            'Explorer B: BFS over histories of _add/_delete/_generate/_divide/_move/clear and pairs, by a step or a process, from three initial hierarchies; every history is executed on a fresh real Engine and after every tick the value tree is compared with the reference hierarchy and node identities outside the footprint (and of moved subtrees) are compared. Agents family: the same operations issued from inside the compartments (self-division with copied or fresh processes, self-deletion, self-move, operations on siblings).',
+            'Explorer B: BFS over histories of _add/_delete/_generate/_divide/_move/clear and pairs, by a step or a process, from three initial hierarchies; every history is executed on a fresh real Engine and after every tick the value tree is compared with the reference hierarchy and node identities outside the footprint (and of moved subtrees) are compared. Agents family: the same operations issued from inside the compartments (self-division with copied or fresh processes, self-deletion, self-move, operations on siblings). Also: updates that address the child they create, two ports of one process sending structural lists to one store, _add states that name children of a nested glob store.',
             'Canonical-state merging keeps shape/keys/kind; compartment processes inert or idle; K6 (tuple-path _delete) is a known finding.',
             'explicit-state BFS over operation histories with a reference hierarchy model and an identity frame condition'),
     'C10': ('model_checking', '3/C10',
-            'Explorer B x victim status (idle / due / in flight via timesteps 1 and 3) x issuer x listing order: the multiset of (path, time) process invocations and the step runs of every phase are compared with the schedule derived from the reference hierarchy; the published composite is compared with the store and with the Composite the engine was built from; a rebuilt engine must continue with the same rows. Agents family: the operations are issued by a controller (process or step) inside the compartments - self-division with copied or fresh processes, self-deletion, self-move, operations on siblings - with growth timesteps 1 and 2.',
+            'Explorer B x victim status (idle / due / in flight via timesteps 1 and 3) x issuer x listing order: the multiset of (path, time) process invocations and the step runs of every phase are compared with the schedule derived from the reference hierarchy; the published composite is compared with the store and with the Composite the engine was built from; a rebuilt engine must continue with the same rows. Agents family: the operations are issued by a controller (process or step) inside the compartments - self-division with copied or fresh processes, self-deletion, self-move, operations on siblings - with growth timesteps 1 and 2. Also: a process replaced in place by a _generate onto its key starts afresh.',
             'Steps are idempotent derivations; K2 (_move of a busy process) is a known finding.',
             'explicit-state BFS over operation histories with a reference schedule, a published-composite invariant and a rebuilt-engine differential'),
     'C16': ('exploration', '3/C16',
@@ -84,7 +84,7 @@ TEXT = {
             'Entry points compared on an explicit initial state; K5 (no explicit state) is a known finding.',
             'bounded exhaustive enumeration of merge sequences and entry points with a union model and differential trajectories'),
     'C13': ('fault_enumeration', '3/C13',
-            'Real worker OS processes. Every parallel subset of schedule, step/deriver and structural worlds is run next to its all-serial twin (rows, final state, published composite must be equal), and every stop point is enumerated: end() after each driver call, end() twice, engine dropped without end(), an exception injected into the j-th call of a serial or a parallel process followed by end(), and deletion/division/move/generation at ticks that leave the worker idle, due in the same batch or in flight (small and pipe-buffer-exceeding updates, operator listed before or after the victim). No still-pending error (also from __del__), end() returns, every worker pid is gone within the watchdog. Also schema overrides of parallel processes, generated parallel steps that are moved later, and every pair of empty-shaped update values through the pipe.',
+            'Real worker OS processes. Every parallel subset of schedule, step/deriver and structural worlds is run next to its all-serial twin (rows, final state, published composite must be equal), and every stop point is enumerated: end() after each driver call, end() twice, engine dropped without end(), an exception injected into the j-th call of a serial or a parallel process followed by end(), and deletion/division/move/generation at ticks that leave the worker idle, due in the same batch or in flight (small and pipe-buffer-exceeding updates, operator listed before or after the victim). No still-pending error (also from __del__), end() returns, every worker pid is gone within the watchdog. Also schema overrides of parallel processes, generated parallel steps that are moved later, and every pair of empty-shaped update values through the pipe. Also: profiles larger than a pipe buffer (profile=True), state-dependent timesteps in a worker, and the wrapper answering the Process interface after merge_overrides.',
             'Worker liveness by pid; ParallelProcess.__init__ wrapped in the harness to record pids; K2 is a known finding.',
             'exhaustive fault/stop-point enumeration over real worker processes with a serial-vs-parallel differential oracle'),
 }
